@@ -3,6 +3,7 @@ package samlsim
 import (
 	"crypto/tls"
 	"fmt"
+	"strconv"
 	"strings"
 	"time"
 
@@ -69,6 +70,21 @@ type AsrtSpec struct {
 	SignKey           int        `json:"sign_key,omitempty"` // index into rsaKeys
 	Encrypt           bool       `json:"encrypt,omitempty"`
 	EncryptTo         int        `json:"encrypt_to,omitempty"` // index into rsaKeys (the SP's key)
+	// AudienceGroups: further AudienceRestriction elements, each with all the Audience children listed (several audiences inside ONE
+	// restriction are an OR: the restriction is satisfied by a relying party that is any one of them). Written after the restrictions
+	// of Audiences.
+	AudienceGroups [][]string `json:"audience_restrictions_with_several_audiences,omitempty"`
+	// Proxy: a ProxyRestriction condition. It says to whom the relying party may in turn issue assertions of its own on the strength
+	// of this one (saml-core 2.5.1.6); it does not say whom this assertion is for.
+	Proxy *ProxySpec `json:"proxy_restriction,omitempty"`
+	// how the sender encrypts ("": RSA-OAEP-MGF1P with SHA-1, AES128-CBC): the key transport (rsa-1_5) and the block cipher (aes192-cbc, aes256-cbc)
+	EncTransport string `json:"encrypt_key_transport,omitempty"`
+	EncCipher    string `json:"encrypt_block_cipher,omitempty"`
+}
+
+type ProxySpec struct {
+	Count     *int     `json:"count,omitempty"`
+	Audiences []string `json:"audiences,omitempty"`
 }
 
 type RespSpec struct {
@@ -238,8 +254,15 @@ func placeSignature(el *etree.Element) *etree.Element {
 var timeAttrs = map[string]bool{"IssueInstant": true, "NotBefore": true, "NotOnOrAfter": true, "AuthnInstant": true}
 
 // lexicalForm renders instant t (an exact millisecond) in one of the lexical forms the parser admits.
+// zoneFormBase + m (m in -840..840): the lexical form "three fractional digits, zone offset m minutes" (forms 0-6 are listed below)
+const zoneFormBase = 2000
+
 func lexicalForm(t time.Time, form int) string {
 	t = t.UTC()
+	if form >= zoneFormBase-14*60 && form <= zoneFormBase+14*60 {
+		// the same instant written in the zone (form - zoneFormBase) minutes east of UTC: xs:dateTime admits -14:00 ... +14:00
+		return t.In(time.FixedZone("", (form-zoneFormBase)*60)).Format("2006-01-02T15:04:05.000Z07:00")
+	}
 	switch form {
 	case 1: // zone offset +02:00
 		return t.In(time.FixedZone("", 2*3600)).Format("2006-01-02T15:04:05.000Z07:00")
@@ -393,6 +416,40 @@ func buildAssertionEl(a *AsrtSpec, t0 time.Time, form int, method string) *etree
 			c.InsertChildAt(0, r)
 		}
 	}
+	if len(a.AudienceGroups) > 0 || a.Proxy != nil {
+		c := el.FindElement("./Conditions")
+		if c == nil {
+			c = etree.NewElement("saml:Conditions")
+			if sub := el.FindElement("./Subject"); sub != nil {
+				el.InsertChildAt(sub.Index()+1, c)
+			} else {
+				el.AddChild(c)
+			}
+		}
+		at := 0 // behind the last AudienceRestriction there is
+		for _, ch := range c.ChildElements() {
+			if ch.Tag == "AudienceRestriction" {
+				at = ch.Index() + 1
+			}
+		}
+		for _, grp := range a.AudienceGroups {
+			r := etree.NewElement("saml:AudienceRestriction")
+			for _, au := range grp {
+				r.CreateElement("saml:Audience").SetText(au)
+			}
+			c.InsertChildAt(at, r)
+			at = r.Index() + 1
+		}
+		if a.Proxy != nil {
+			pr := c.CreateElement("saml:ProxyRestriction")
+			if a.Proxy.Count != nil {
+				pr.CreateAttr("Count", strconv.Itoa(*a.Proxy.Count))
+			}
+			for _, au := range a.Proxy.Audiences {
+				pr.CreateElement("saml:Audience").SetText(au)
+			}
+		}
+	}
 	if a.Pretty {
 		el.IndentWithSettings(&etree.IndentSettings{Spaces: 2})
 	}
@@ -411,6 +468,9 @@ func buildAssertionEl(a *AsrtSpec, t0 time.Time, form int, method string) *etree
 	}
 	if a.Encrypt {
 		applyNSDecls(el, a.NSDecls, t0)
+		if a.EncTransport != "" || a.EncCipher != "" {
+			return encryptElWith(el, rsaKeys[a.EncryptTo], "saml:EncryptedAssertion", a.EncTransport, a.EncCipher)
+		}
 		return encryptAssertionEl(el, rsaKeys[a.EncryptTo])
 	}
 	return el
@@ -423,16 +483,47 @@ func encryptAssertionEl(el *etree.Element, kp KeyPair) *etree.Element {
 
 // encryptElAs wraps el into the given Encrypted* element for the holder of kp.
 func encryptElAs(el *etree.Element, kp KeyPair, wrapper string) *etree.Element {
+	return encryptElWith(el, kp, wrapper, "", "")
+}
+
+// senderBlockCipher: the block cipher a sender's choice names ("": AES128-CBC).
+func senderBlockCipher(name string) xmlenc.BlockCipher {
+	switch name {
+	case "", "aes128-cbc":
+		return xmlenc.AES128CBC
+	case "aes192-cbc":
+		return xmlenc.AES192CBC
+	case "aes256-cbc":
+		return xmlenc.AES256CBC
+	}
+	panic("harness: unknown block cipher " + name)
+}
+
+// senderEncrypter: the sender's choice of key transport ("": RSA-OAEP-MGF1P with SHA-1; "rsa-1_5") and block cipher.
+func senderEncrypter(transport, blockCipher string) xmlenc.RSA {
+	var enc xmlenc.RSA
+	switch transport {
+	case "", "rsa-oaep-mgf1p":
+		enc = xmlenc.OAEP()
+		enc.DigestMethod = &xmlenc.SHA1
+	case "rsa-1_5":
+		enc = xmlenc.PKCS1v15()
+	default:
+		panic("harness: unknown key transport " + transport)
+	}
+	enc.BlockCipher = senderBlockCipher(blockCipher)
+	return enc
+}
+
+// encryptElWith: as encryptElAs, with the sender's choice of key transport ("": RSA-OAEP-MGF1P with SHA-1; "rsa-1_5") and block cipher.
+func encryptElWith(el *etree.Element, kp KeyPair, wrapper, transport, blockCipher string) *etree.Element {
 	doc := etree.NewDocument()
 	doc.SetRoot(el.Copy())
 	buf, err := doc.WriteToBytes()
 	if err != nil {
 		panic(err)
 	}
-	enc := xmlenc.OAEP()
-	enc.BlockCipher = xmlenc.AES128CBC
-	enc.DigestMethod = &xmlenc.SHA1
-	ed, err := enc.Encrypt(kp.Cert, buf, nil)
+	ed, err := senderEncrypter(transport, blockCipher).Encrypt(kp.Cert, buf, nil)
 	if err != nil {
 		panic(fmt.Sprintf("harness: encrypt: %v", err))
 	}
